@@ -220,6 +220,13 @@ Outcome RunC19(RunCtx& ctx)
 	}
 	std::vector<ThreadWork> work(T);
 	std::string plan;
+	// swarm: 1 run in 3 keeps every thread in the same code (one archive, one direction, one entry), so that two threads are
+	// likely to be inside the same function at the same time
+	const bool focus = s.chance(sim::L_PROG, 1, 3);
+	const int focusArchive = static_cast<int>(s.draw(sim::L_PROG, A_COUNT));
+	const uint32_t focusDir = s.draw(sim::L_PROG, 3);      // 0 saves, 1 loads, 2 both
+	const uint32_t focusEntry = s.draw(sim::L_PROG, 3);    // 0 memory, 1 stream, 2 both
+	if (focus) { g.maxStr = 300; ctx.count(std::string("focus.") + ArchiveName(focusArchive)); }
 	for (uint32_t t = 0; t < T; ++t)
 	{
 		const uint32_t n = 3 + s.draw(sim::L_PROG, 8);
@@ -229,6 +236,16 @@ Outcome RunC19(RunCtx& ctx)
 			op.kind = static_cast<int>(s.draw(sim::L_PROG, OP_COUNT));
 			op.archive = static_cast<int>(s.draw(sim::L_PROG, A_COUNT));
 			op.stream = s.chance(sim::L_PROG, 1, 2);
+			if (focus)
+			{
+				op.archive = focusArchive;
+				static const int saves[] = { OP_SAVE_OWN, OP_SAVE_SHARED, OP_SAVE_SHARED_ZOO, OP_SAVE_OWN };
+				static const int loads[] = { OP_LOAD_OWN, OP_LOAD_SHARED, OP_LOAD_INVALID, OP_LOAD_CORRUPT, OP_LOAD_SHARED_ZOO };
+				if (focusDir == 0) op.kind = saves[static_cast<uint32_t>(op.kind) % 4];
+				else if (focusDir == 1) op.kind = loads[static_cast<uint32_t>(op.kind) % 5];
+				else if (op.kind == OP_CONVERT) op.kind = OP_SAVE_OWN;
+				if (focusEntry == 0) op.stream = false; else if (focusEntry == 1) op.stream = true;
+			}
 			const uint32_t nd = s.draw(sim::L_IO, 3);
 			for (uint32_t k = 0; k < nd; ++k) { static const uint32_t sizes[] = { 1, 3, 7, 16, 64 }; op.delivery.push_back(s.pick(sim::L_IO, sizes)); }
 			static const uint32_t bufs[] = { 0, 7, 4096 };
@@ -272,7 +289,7 @@ Outcome RunC19(RunCtx& ctx)
 	auto sequential = [&]
 	{
 		sim::steps_begin(UINT64_MAX);
-		for (uint32_t t = 0; t < T; ++t) { expected[t].clear(); for (auto& op : work[t].ops) expected[t].push_back(Execute(op, sh)); }
+		for (uint32_t t = 0; t < T; ++t) { expected[t].clear(); for (auto& op : work[t].ops) { const uint64_t b4 = sim::steps_now(); expected[t].push_back(Execute(op, sh)); if (getenv("SIM_C19_DEBUG")) fprintf(stderr, "SEQ t%u %s/%s%s %llu\n", t, OpName(op.kind), ArchiveName(op.archive), op.stream ? "/stream" : "/mem", (unsigned long long)(sim::steps_now() - b4)); } }
 		seqSteps = sim::steps_now();
 		sim::steps_end();
 	};
@@ -297,6 +314,14 @@ Outcome RunC19(RunCtx& ctx)
 	}
 	for (uint32_t i = 0; i < sp.nSwitches; ++i) sp.target[i] = s.draw(sim::L_SCHED, 16);
 	for (uint32_t i = 0; i < 64; ++i) sp.onExit[i] = s.draw(sim::L_SCHED, 16);
+	// switches placed at atomic operations (they exist as scheduling points in the tsan flavour only; the draws are made in both)
+	sp.atomicOn = s.chance(sim::L_SCHED, 1, 2);
+	{
+		static const uint32_t dens[] = { 2, 4, 16 };
+		const uint32_t den = s.pick(sim::L_SCHED, dens);
+		for (uint32_t i = 0; i < 256; ++i) sp.atomicSwitch[i] = sp.atomicOn && s.chance(sim::L_SCHED, 1, den) ? 1 : 0;
+		for (uint32_t i = 0; i < 64; ++i) sp.atomicTarget[i] = s.draw(sim::L_SCHED, 16);
+	}
 	ctx.note("threads=" + std::to_string(T) + " schedule=" + (pct ? "pct" : "walk") + " switches<=" + std::to_string(sp.nSwitches) + " sequential-steps=" + std::to_string(seqSteps));
 	ctx.note("ops: " + plan);
 	ctx.count(pct ? "sched.pct" : "sched.walk");
@@ -310,6 +335,9 @@ Outcome RunC19(RunCtx& ctx)
 	sim::ev(sim::EV_S_SWITCH, sr.switches, sr.switchHash);
 	ctx.note("scheduled run: steps=" + std::to_string(sr.steps) + " switches=" + std::to_string(sr.switches));
 	ctx.count("switches", sr.switches);
+	ctx.count("atomic_points", sr.atomicPoints);
+	ctx.count("atomic_switches", sr.atomicSwitches);
+	if (sr.atomicSwitches) sim::probe("switch-at-atomic-operation");
 
 	Outcome out;
 	out.cfgKey = std::to_string(sr.switchHash);
